@@ -226,7 +226,25 @@ def main():
             f"Definition pairs : list (unit3 * unit3) := {clist(pairs[k:k + sh])}.\n"
             f"Definition succeeds (s e : unit3) : bool := match convert bd tbl ord offs {FUEL}%nat 1 s e with COk _ => true | CErr _ => false end.\n"
             "Lemma all_named_reach_si : forallb (fun '(u, s) => andb (succeeds u s) (succeeds s u)) pairs = true.\nProof. vm_compute. reflexivity. Qed.\n")
+    # the invariants every history of declarations keeps (C08_declarations_keep_table_reciprocal, C10_history_tables), evaluated on the table the
+    # shipped modules actually built: every stored ratio has its reciprocal stored the other way (floats: within 1e-12), every stored offset its
+    # opposite, and offsets sit on pairs whose ratio is one both ways
+    files["Gen_reciprocal"] = (convlib.CHEADER + "From Coq Require Import Bool.\nFrom Measured Require Import Model.Declare.\n" + td +
+        "Lemma shipped_tables_reciprocal : reciprocalb (1 # 1000000000000) tbl && oppositeb offs && offsets_on_unit_ratiosb tbl offs && negb (Nat.eqb (length tbl) 0) = true.\n"
+        "Proof. vm_compute. reflexivity. Qed.\n")
     out = c.run_coq(files)
+    ok_r, log_r = out.pop("Gen_reciprocal")
+    c.oblige("Gen_reciprocal.shipped_tables_reciprocal (the exported _ratios / _offsets of the shipped modules: reciprocal ratios, opposite offsets, offsets only on unit ratios)", ok_r, log_r[-600:])
+    if not ok_r:
+        # locate the entry on the export itself
+        kk = lambda u: json.dumps([u["p"], u["f"]])
+        R_ = {(kk(a), kk(b)): rr for a, b, rr in ex2["ratios"]}
+        names_ = {i: n for i, _d, n in ex2["env"]}
+        for a, b, rr in ex2["ratios"]:
+            r2 = R_.get((kk(b), kk(a)))
+            if r2 is None or (len(rr) == 3 and len(r2) == 3 and abs(frac(rr) * frac(r2) - 1) > Fraction(1, 10**12)):
+                nm = " ".join(names_.get(k_, "?") for k_, _ in a["f"]) + " -> " + " ".join(names_.get(k_, "?") for k_, _ in b["f"])
+                c.violation(f"not-reciprocal:{nm}", f"_ratios[{nm}] = {rr} but the other direction holds {r2}", {"a": a, "b": b, "ratio": rr, "reverse": r2}); break
     for nme, (ok, log) in sorted(out.items()):
         c.oblige(f"{nme}.all_named_reach_si (the planner model converts every reachable named unit to and from the coherent SI unit, on the regenerated table)", ok, log[-600:])
     c.cov["named_units_reaching_si"] = nreach // 2
